@@ -7,7 +7,7 @@ CONSTANTS
   Never <- NoTrees
   NoIslands = FALSE
   InitVals <- Init_Real1
-  Kinds <- AllKinds
+  Kinds <- KindsM
 VIEW ViewNoEv
 INVARIANT TypeOK
 INVARIANT CyclesClosed
